@@ -1,3 +1,5 @@
+CONSTANTS
+  OldResetHandling = FALSE
 INIT Init
 NEXT Next
 INVARIANT Judge
